@@ -67,7 +67,9 @@ fn main() {
             let index: u64 = args.get(4).and_then(|s| s.parse().ok()).unwrap_or(0);
             let style_no: usize = args.get(5).and_then(|s| s.parse().ok()).unwrap_or(0);
             let program = e1::generate::generate(seed, &tag, index);
-            let styles = props::c02::styles_for(index);
+            // styles 0.. are C02's erasure styles, 10.. are C07's naming strategies
+            let styles = if style_no >= 10 { props::c07::strategies() } else { props::c02::styles_for(index) };
+            let style_no = if style_no >= 10 { style_no - 10 } else { style_no };
             let style = &styles[style_no.min(styles.len() - 1)];
             let text = e1::print::program_text(&program, style, seed ^ index);
             let body_at = text.find(") in\n").map(|i| i + 5).unwrap_or(0);
